@@ -284,7 +284,17 @@ def check_const_speed(s, res, segs):
         dphi = total / 499
         Lest = 499 * math.hypot(2 * R * math.sin(dphi / 2), h / 499)
     n = max(2, int(10 * Lest / res))
-    spacing = L / max(2, n - 1)          # n - 1: the truncation int() may fall either way within rounding
+    # The filter accumulates CHORDS between consecutive samples; the oracle measures the helix arc between kept vertices.
+    # For n' samples: chord c = hypot(2 R sin(total / 2n'), h / n'), arc a = L / n'.  A kept segment spanning m samples has
+    # m c <= 0.9 res + c, hence arc m a <= (0.9 res + c) a / c; n' = n or n - 1 (the truncation int() may fall either way).
+    up_arc, lo_count = 0.0, None
+    for nn in {n, max(2, n - 1)}:
+        cc = math.hypot(2 * R * math.sin(abs(total) / (2 * nn)), h / nn)
+        aa = L / nn
+        up_arc = max(up_arc, (0.9 * res + cc) * aa / cc)
+        lc = nn * cc / (0.9 * res + cc) - 1
+        lo_count = lc if lo_count is None else min(lo_count, lc)
+    spacing = L / max(2, n - 1)
     sgn = 1.0 if s["ccw"] else -1.0
     tolR = 1e-9 * max(1.0, R) + 1e-9 * max(abs(c[0]), abs(c[1]), 1.0)
     travelled = []
@@ -314,15 +324,15 @@ def check_const_speed(s, res, segs):
         return "the last vertex %r is not the target %r" % (prev, s["target"]), None
     eps = 1e-7
     smax = max(travelled)
-    up = (0.9 * res + spacing) * (1 + eps)
+    up = up_arc * (1 + eps)
     for i, T in enumerate(travelled):
         if T > up:
-            return ("segment %d of %d travels %.6g = %.4f res; bound 0.9 res + L/n = %.4f res (res %.6g, L/res %.1f)" % (
+            return ("segment %d of %d travels %.6g = %.4f res along the curve; bound (0.9 res + sample chord) x arc/chord = %.4f res (res %.6g, L/res %.1f)" % (
                 i + 1, k, T, T / res, up / res, res, L / res)), None
         if 0 < i < k - 1 and T < 0.9 * res * (1 - eps):
             return ("inner segment %d of %d travels %.6g = %.4f res < 0.9 res (res %.6g, L/res %.1f)" % (
                 i + 1, k, T, T / res, res, L / res)), None
-    lo_cnt = L / (0.9 * res + spacing) - 1 - 1e-6
+    lo_cnt = lo_count - 1e-6
     hi_cnt = L / (0.9 * res) + 2 + 1e-6
     if not (lo_cnt <= k <= hi_cnt):
         return "%d segments for L/res = %.2f (expected between %.1f and %.1f)" % (k, L / res, lo_cnt, hi_cnt), None
